@@ -129,7 +129,12 @@ def replay_isolation(p):
     from dliswriter import DLISFile
     ob = p.get('obligation', '')
     a_ = p['args']
-    if 'shared' in ob:
+    osn, csn = ('S1', 'S2'), ('S1', 'S2')
+    if 'shared_origin' in ob:
+        n1, n2, order, explicit2 = a_[:4]
+        osn = ('S', 'S') if a_[4] else (None, None)
+        csn = (None, None) if a_[5] else ('S1', 'S2')
+    elif 'shared' in ob:
         n1, n2, order, explicit2 = a_[0], a_[0], a_[1], False
     else:
         n1, n2, order, explicit2 = a_[:4]
@@ -138,8 +143,8 @@ def replay_isolation(p):
     lf1 = df.add_logical_file(fh_id='LF1')
     lf2 = df.add_logical_file(fh_id='LF2', fh_sequence_number=2)
     steps = {
-        'o1': lambda: lf1.add_origin('O1', file_set_number=1, creation_time='2020/01/01 00:00:00', set_name='S1'),
-        'o2': lambda: lf2.add_origin('O2', file_set_number=1, creation_time='2020/01/01 00:00:00', set_name='S2',
+        'o1': lambda: lf1.add_origin('O1', file_set_number=1, creation_time='2020/01/01 00:00:00', set_name=osn[0]),
+        'o2': lambda: lf2.add_origin('O2', file_set_number=1, creation_time='2020/01/01 00:00:00', set_name=osn[1],
                                      origin_reference=77 if explicit2 else None),
         'z1': lambda: lf1.add_zone('Z1', set_name=NAMES[n1]),
         'z2': lambda: lf2.add_zone('Z2', set_name=NAMES[n2]),
@@ -150,7 +155,7 @@ def replay_isolation(p):
     try:
         for s in seqs[order]:
             steps[s]()
-        for lf, sn in ((lf1, 'S1'), (lf2, 'S2')):
+        for lf, sn in ((lf1, csn[0]), (lf2, csn[1])):
             c = lf.add_channel('C', data=np.arange(2, dtype=np.float64), set_name=sn)
             lf.add_frame('F', channels=(c,), set_name=sn)
         data = _write(df)
